@@ -169,13 +169,15 @@ def gen_history(rng, tier):
     for _ in range(nops):
         t = rng.below(2)
         op = rng.weighted([("set", 8), ("ref", 4), ("refd", 3), ("exists", 3), ("delete", 4), ("update", 2), ("updated", 3), ("size", 2),
-                           ("copy", 1), ("fold", 1), ("dump", 1), ("hashco", 1 if kind == "equal" else 0)])
+                           ("copy", 1), ("merge", 1), ("fold", 1), ("dump", 1), ("hashco", 1 if kind == "equal" else 0)])
         T = "(vector-ref T %d)" % t
         if op in ("set", "ref", "refd", "exists", "delete", "update", "updated", "hashco"):
             expr, canon, rep = gen_key(rng, kind, pool)
         if op == "set":
-            v = rng.range(0, 999)
-            ops.append({"src": "(hash-table-set! %s %s %d) 'ok" % (T, expr, v), "k": "set", "t": t, "canon": canon, "rep": rep, "v": v})
+            # values are arbitrary objects: mostly numbers, sometimes #f / () / a symbol (a false value must stay an association)
+            v = rng.range(0, 999) if not rng.chance(1, 6) else rng.choice(["#f", "#f", "()", "vsym", "#t"])
+            vsrc = str(v) if isinstance(v, int) else ("'" + v if v in ("()", "vsym") else v)
+            ops.append({"src": "(hash-table-set! %s %s %s) 'ok" % (T, expr, vsrc), "k": "set", "t": t, "canon": canon, "rep": rep, "v": v})
         elif op == "ref":
             ops.append({"src": "(hash-table-ref %s %s (lambda () 'missing))" % (T, expr), "k": "ref", "t": t, "canon": canon})
         elif op == "refd":
@@ -185,15 +187,17 @@ def gen_history(rng, tier):
         elif op == "delete":
             ops.append({"src": "(hash-table-delete! %s %s) 'ok" % (T, expr), "k": "delete", "t": t, "canon": canon})
         elif op == "update":
-            ops.append({"src": "(hash-table-update! %s %s (lambda (x) (+ x 1)) (lambda () 1000)) 'ok" % (T, expr), "k": "update", "t": t, "canon": canon, "rep": rep})
+            ops.append({"src": "(hash-table-update! %s %s (lambda (x) (if (number? x) (+ x 1) 1)) (lambda () 1000)) 'ok" % (T, expr), "k": "update", "t": t, "canon": canon, "rep": rep})
         elif op == "updated":
-            ops.append({"src": "(hash-table-update!/default %s %s (lambda (x) (+ x 2)) 2000) 'ok" % (T, expr), "k": "updated", "t": t, "canon": canon, "rep": rep})
+            ops.append({"src": "(hash-table-update!/default %s %s (lambda (x) (if (number? x) (+ x 2) 2)) 2000) 'ok" % (T, expr), "k": "updated", "t": t, "canon": canon, "rep": rep})
         elif op == "size":
             ops.append({"src": "(hash-table-size %s)" % T, "k": "size", "t": t})
         elif op == "copy":
             ops.append({"src": "(vector-set! T %d (hash-table-copy %s)) 'ok" % (1 - t, T), "k": "copy", "t": t})
+        elif op == "merge":
+            ops.append({"src": "(hash-table-merge! %s (vector-ref T %d)) 'ok" % (T, 1 - t), "k": "merge", "t": t})
         elif op == "fold":
-            ops.append({"src": "(list (hash-table-fold %s (lambda (k v acc) (+ acc v)) 0) (length (hash-table-keys %s)) (length (hash-table->alist %s)))" % (T, T, T), "k": "fold", "t": t})
+            ops.append({"src": "(list (hash-table-fold %s (lambda (k v acc) (+ acc (if (number? v) v 0))) 0) (length (hash-table-keys %s)) (length (hash-table->alist %s)))" % (T, T, T), "k": "fold", "t": t})
         elif op == "dump":
             ops.append({"src": "(dump %s)" % T, "k": "dump", "t": t})
         elif op == "hashco":
@@ -214,7 +218,7 @@ def generate(rng, tier, index, seed):
     threaded = False
     if world == "gc-in-op":
         # collect at every allocation inside one tape-marked operation (often an insertion that regrows)
-        setops = [i for i, o in enumerate(ops) if o["k"] in ("set", "update", "updated", "copy")]
+        setops = [i for i, o in enumerate(ops) if o["k"] in ("set", "update", "updated", "copy", "merge")]
         target = rng.choice(setops) if setops else 0
         gc = {"mode": "every", "n": 1, "scope_step": target + 1, "max_forced": 2000}
         junk = rng.choice([0, 0, 17])
@@ -281,24 +285,28 @@ def judge(case, res):
             tb.pop(o["canon"], None)
         elif k == "update":
             if o["canon"] in tb:
-                tb[o["canon"]][1] += 1
+                tb[o["canon"]][1] = tb[o["canon"]][1] + 1 if isinstance(tb[o["canon"]][1], int) else 1
             else:
                 tb[o["canon"]] = [o["rep"], 1001]
         elif k == "updated":
             if o["canon"] in tb:
-                tb[o["canon"]][1] += 2
+                tb[o["canon"]][1] = tb[o["canon"]][1] + 2 if isinstance(tb[o["canon"]][1], int) else 2
             else:
                 tb[o["canon"]] = [o["rep"], 2002]
         elif k == "size":
             want = str(len(tb))
         elif k == "copy":
             tables[1 - t] = {c: list(v) for c, v in tb.items()}
+        elif k == "merge":
+            for c, v in tables[1 - t].items():
+                if c not in tb:
+                    tb[c] = list(v)
         elif k == "fold":
-            want = "(%d %d %d)" % (sum(v[1] for v in tb.values()), len(tb), len(tb))
+            want = "(%d %d %d)" % (sum(v[1] for v in tb.values() if isinstance(v[1], int)), len(tb), len(tb))
         elif k == "dump":
             want = str(len(tb))
             got_lines = sorted(l for l in s["out"].split("\n") if l)
-            want_lines = sorted(("%s=%d" % (v[0], v[1])).encode("utf-8").decode("latin-1") for v in tb.values())
+            want_lines = sorted(("%s=%s" % (v[0], v[1])).encode("utf-8").decode("latin-1") for v in tb.values())
             checks += 1
             if got_lines != want_lines:
                 gs, ws = set(got_lines), set(want_lines)
